@@ -869,7 +869,7 @@ func (c *compiler) stringsOperator(l string, r interface{}, op string) (interfac
 	case "~=":
 		x, err := regexp.Compile(rr)
 		if err != nil {
-			return nil, fmt.Errorf("couldn't compile regex %s", rr)
+			return nil, fmt.Errorf("couldn't compile regex %s: %w", rr, err)
 		}
 		return x.MatchString(l), nil
 	}
